@@ -256,6 +256,24 @@ func bigC16(run *report.Run, acc *pairAcc) {
 				acc.add(cfg, "C16", []explore.Finding{{Sig: "C16|Clone|too-many-loads", What: "Clone read more than the top node", Detail: fmt.Sprint(n)}}, []string{cfg.Name})
 			}
 		}
+		// a Root put together by the application from the stored link, height, branch factor and format (no
+		// size on record; or a size that is off): opening it is still one read, and so is every lookup path
+		for _, sz := range []uint64{0, 1, bt.root.Size + 1} {
+			rr := *bt.root
+			rr.Size = sz
+			store2.ResetLog()
+			t2, err := rr.LoadMast(ctx, bt.w.RemoteConfig(store2, false))
+			if n := len(store2.Calls("load")); n > 1 {
+				acc.add(cfg, "C16", []explore.Finding{{Sig: "C16|LoadMast|root-with-another-size|too-many-loads", What: "LoadMast of a root whose recorded size is not the number of entries read more than the top node", Detail: fmt.Sprintf("recorded size %d (entries %d): %d loads", sz, bt.root.Size, n)}}, []string{cfg.Name})
+			}
+			if err == nil && t2 != nil {
+				store2.ResetLog()
+				t2.Get(ctx, cfg.Key(0), nil)
+				if n := len(store2.Calls("load")); n > h+1 {
+					acc.add(cfg, "C16", []explore.Finding{{Sig: "C16|Get|root-with-another-size|too-many-loads", What: "Get on a tree opened from a root whose recorded size is not the number of entries read more than height+1 nodes", Detail: fmt.Sprintf("recorded size %d: %d loads, height %d", sz, n, h)}}, []string{cfg.Name})
+				}
+			}
+		}
 		run.Parts = append(run.Parts, map[string]interface{}{"config": cfg.Name, "height": h, "entries": spec.n, "keys_and_probes": cfg.NAll()})
 	}
 	run.Extra["seeded_tree_operations"] = evals
